@@ -9,7 +9,7 @@ NOTE = "Trusted: z3/cvc5, the pyvc VC generator, CPython, the library theories a
 CLAIMS = {
   # id: (category, technique, text, note, design_ref)
   "C01": ("proof", TECH,
-          "Every factor-producing function (FermatFactor, FactorHighAndLowBitsEqual, CheckContinuedFraction, CheckFraction, Pollardpm1, CheckLowHammingWeight, FactorWithGuess, CheckSmallUpperDifferences) has a discharged postcondition 'recorded pair multiplies to n' (proper divisor where the code guards it); every util.AttachFactors call site of the 17 RSA Check methods carries discharged call-site obligations (same artifact, factors multiply to / divide the modulus) and 'attached implies positive entry'. CheckKeypairDenylist attaches the regenerated pair only after its own p * q == n test, and Generator.generate_key / generate_prime are proved to return integers >= 2^(bits/2 - 1) (so the pair is a proper factorisation); the shipped table's shape is a ground obligation. BatchGCD is an assumed contract decided by the bounded tier; the CheckGCD proper-divisor clause is bounded only.",
+          "Every factor-producing function (FermatFactor, FactorHighAndLowBitsEqual, CheckContinuedFraction, CheckFraction, Pollardpm1, CheckLowHammingWeight, FactorWithGuess, CheckSmallUpperDifferences) has a discharged postcondition 'recorded pair multiplies to n' (proper divisor where the code guards it); every util.AttachFactors call site of the 17 RSA Check methods carries discharged call-site obligations (same artifact, factors multiply to / divide the modulus) and 'attached implies positive entry'. CheckKeypairDenylist attaches the regenerated pair only after its own p * q == n test, and Generator.generate_key / generate_prime are proved to return integers >= 2^(bits/2 - 1) (so the pair is a proper factorisation); the shipped table's shape is a ground obligation. util.AttachFactors / GetAttachedFactors (serialisation and merge of the factor sets) are proved against their bodies. BatchGCD is an assumed contract decided by the bounded tier; the CheckGCD proper-divisor clause is bounded only.",
           NOTE, "DESIGN.md 4/C01"),
   "C03": ("exploration", TECH + " (glue deductive; remainder-tree induction bounded)",
           "CheckGCD / CheckGCDN1 glue is discharged (key i flagged exactly when gcds[i] != 1 resp. >= bound, recorded {g, N//g} resp. {g}, aligned with artifacts); BatchGCD itself (product / remainder tree induction) is an assumed contract decided by the bounded tier: definition gcd(v_i, other * product of the other distinct values) for every batch size 0..40 (quick) / 0..130 (thorough), sharing patterns, duplicates, permutations.",
@@ -20,8 +20,8 @@ CLAIMS = {
   "C05": ("exploration", TECH + " (flag logic deductive; detection bounded, sampled)",
           "Detection rests on LLL / best-first heuristics: seeded members of each documented family at the documented margins (bounded, sampled). Deductive part: the Check methods flag exactly when the callee reports (CheckContinuedFraction, LowHammingWeight severity rule), search loops try candidates until the first success; Pollardpm1 is proved to be the mechanism the property names (gate gcd(n-1, m) >= bound, base 2^(n-1) mod n, flagged <=> gcd(a^m - 1, n) > 1, factored with that gcd when proper).",
           NOTE, "DESIGN.md 4/C05"),
-  "C10": ("exploration", TECH + " (first sentence - BatchDL finds every x < bound - deductive in a group view with assumed bridge clauses; soundness, search space, table, index mapping deductive; the structured-key and small-difference sentences bounded)",
-          "Deductive part (all n, all list lengths, all curves): BatchDL search space (the giant steps j*t together with the baby-step window |delta| < table_size reach every x in [0, n); the table cached on the curve is at least as large as the window), PointTable index space (the stored values i*m + j with j < m == len(sequence_low), i < len(sequence_high) reach every index in [0, n)), BatchDLOfDifferences (cached table covers max_diff whenever the search runs), CheckWeakECPrivateKey / CheckECKeySmallDifference flag key i exactly when search result i is not None (partition by curve preserves the index mapping). Soundness over the logarithm view of <G>: every value BatchDL returns is a discrete log of its own point (stored only after Multiply(G, dl) was compared with the target, both signs), and ExtendedBatchDL's value d * multiplier is a log of the original point because the transformed point is inverse * P and inverse * multiplier == 1 (mod n) - for every curve, list and multiplier list. Group view (bridge clauses on the formula-level functions assumed, see C11): Multiply returns n * P for every integer n, PointSequence entry k is k * base. COMPLETENESS of BatchDL (second, independent contract on the function): for every index i and every x with 0 <= x < n, if points[i] == x * G and the table cached on the curve is a correct baby-step table of its recorded size, then result[i] is not None - the giant step J = (x + ts - 1) // t leaves |x - J t| < ts, BatchAddX(p, list_c)[J] is the x-coordinate of (x - J t) G (None for the identity: None is a dict key of the table), the stored value v satisfies v G == +-(x - J t) G and one of the candidates J t + v, J t - v is verified and stored; the table invariant is re-established. PointTable is proved to build such a table (every v * base, v < n, has its key; every stored value has the right x-coordinate). Bridge clauses (assumed, listed): AddJacobian / DoubleJacobian / JacobianToAffine / BatchJacobianToAffine / Negate / BatchAddX compute the group operation resp. the x-coordinate of the sum on on-curve representatives; group and x-coordinate axioms of the specification theory. The sentences about structured private keys (ExtendedBatchDL finds e * multiplier) and about small differences (BatchDLOfDifferences) are decided for completeness by the bounded tier: exhaustive for all x, all list lengths and call histories on small prime-order curves, edge cases on named curves.",
+  "C10": ("exploration", TECH + " (BatchDL and ExtendedBatchDL completeness and soundness deductive in a group view with assumed bridge clauses; search space, table, index mapping deductive; repeated-word multipliers and the small-difference sentence bounded)",
+          "Deductive part (all n, all list lengths, all curves): BatchDL search space (the giant steps j*t together with the baby-step window |delta| < table_size reach every x in [0, n); the table cached on the curve is at least as large as the window), PointTable index space (the stored values i*m + j with j < m == len(sequence_low), i < len(sequence_high) reach every index in [0, n)), BatchDLOfDifferences (cached table covers max_diff whenever the search runs), CheckWeakECPrivateKey / CheckECKeySmallDifference flag key i exactly when search result i is not None (partition by curve preserves the index mapping). Soundness over the logarithm view of <G>: every value BatchDL returns is a discrete log of its own point (stored only after Multiply(G, dl) was compared with the target, both signs), and ExtendedBatchDL's value d * multiplier is a log of the original point because the transformed point is inverse * P and inverse * multiplier == 1 (mod n) - for every curve, list and multiplier list. Group view (bridge clauses on the formula-level functions assumed, see C11): Multiply returns n * P for every integer n, PointSequence entry k is k * base. COMPLETENESS of BatchDL (second, independent contract on the function): for every index i and every x with 0 <= x < n, if points[i] == x * G and the table cached on the curve is a correct baby-step table of its recorded size, then result[i] is not None - the giant step J = (x + ts - 1) // t leaves |x - J t| < ts, BatchAddX(p, list_c)[J] is the x-coordinate of (x - J t) G (None for the identity: None is a dict key of the table), the stored value v satisfies v G == +-(x - J t) G and one of the candidates J t + v, J t - v is verified and stored; the table invariant is re-established. PointTable is proved to build such a table (every v * base, v < n, has its key; every stored value has the right x-coordinate). Bridge clauses (assumed, listed): AddJacobian / DoubleJacobian / JacobianToAffine / BatchJacobianToAffine / Negate / BatchAddX compute the group operation resp. the x-coordinate of the sum on on-curve representatives; group and x-coordinate axioms of the specification theory. Second sentence (structured private keys): ExtendedBatchDL#completeness proves, for every point index, every position j of the multiplier list the function builds and every e < 2^32 with e G != 0, that a key (e * multipliers[j]) G is found (transformed point == e G because inverse * multiplier == 1 + n K and n G == 0; BatchDL's completeness; slot bookkeeping), and that the list holds 2^(8k) at position k for every 8k + 32 <= bits; that it also holds the repeated-word multipliers, and the third sentence (small differences, BatchDLOfDifferences), are decided for completeness by the bounded tier: exhaustive for all x, all list lengths and call histories on small prime-order curves, edge cases on named curves.",
           NOTE, "DESIGN.md 4/C10"),
   "C11": ("proof", TECH,
           "Formulas, for every prime field (congruence mode: the bodies are executed with `% self.mod` dropped, postconditions are integer polynomial identities over ghost affine coordinates, the chord/tangent slope stated inverse-free): AddJacobian and DoubleJacobian (both the a == -3 shortcut and the general formula) represent the textbook chord / tangent result (X3 == x3*Z3^2, Y3 == y3*Z3^3), affine Add / Double satisfy the textbook law with an explicit modular-inverse witness, Negate, AffineToJacobian, JacobianToAffine. BatchInverse (Montgomery trick) for every modulus and list. Value pass (body unmodified): which branch (chord / tangent / infinity / other operand) Add, AddJacobian, Double, DoubleJacobian take, stated as a comparison of field elements (lemmas mod_mul_r, mod_eq_iff proved on every run), results reduced to [0, p), no ZeroDivisionError under the stated prime-field hypothesis. Batched variants (ring pass, every modulus and list): BatchAddX, BatchAddSubtractX, BatchAdd, BatchAddList (chord law with the slope from the shared inversion), BatchDouble (tangent law), BatchJacobianToAffine, BatchJacobianToX (x = X w^2, y = Y w^3 with w Z == 1) - the inverses come from BatchInverse's proved contract. Scalar multiplication: Multiply is proved to return n * P for EVERY integer n (sign handling, n == 1 shortcut, double-and-add invariant res + n * pj == n0 * P) and PointSequence entry k to be k * base, in a group view whose bridge to the formulas (AddJacobian / DoubleJacobian / JacobianToAffine / Negate compute the group operation on on-curve representatives) is an ASSUMED clause justified by the ring pass plus the textbook fact that the chord/tangent law is a group law. Named-curve parameters: ground obligations. BatchMultiplyG (comb method), MultiplyAffine, non-canonical representatives end to end: bounded, exhaustive over whole small prime-order groups against an independent implementation.",
@@ -33,7 +33,7 @@ CLAIMS = {
           "util.Bytes2Int/Int2Bytes are proved against the (length, big-endian value) bytes theory incl. round trip; EC-side (HiddenNumberParams, TransformOrderLen) see evidence.",
           NOTE, "DESIGN.md 4/C09"),
   "C16": ("proof", TECH,
-          "util.GetTestResult/SetTestResult/GetAttachedInfo/AttachInfo/GetHighestSeverity are proved against their bodies over the protobuf view (frame + monotonicity + no duplicate names); BaseCheck._CreateTestResult and every RSA Check method: exactly one SetTestResult per artifact per call on that artifact's own test_info, named after the check, with the check's severity (documented LowHammingWeight exception), return value == OR of the results written.",
+          "util.GetTestResult/SetTestResult/GetAttachedInfo/AttachInfo/GetHighestSeverity are proved against their bodies over the protobuf view (frame + monotonicity + no duplicate names); AttachFactors/GetAttachedFactors are proved too (the set recorded afterwards is the old recorded set united with the new factors - a re-run never clears a factor; str(set)/ast.literal_eval as a library theory); BaseCheck._CreateTestResult and every RSA Check method: exactly one SetTestResult per artifact per call on that artifact's own test_info, named after the check, with the check's severity (documented LowHammingWeight exception), return value == OR of the results written.",
           NOTE, "DESIGN.md 4/C16"),
   "C02": ("proof", TECH,
           "Soundness glue of every EC/ECDSA check is discharged: _IssuerDLogs (every recorded index->d has a point under which the index is listed with d*G == point, for ARBITRARY guesses), BiasedBaseCheck.Check and CheckCr50U2f.Check (a signature is marked weak only on the branch where its index has a verified issuer discrete log; the attached DISCRETE_LOG is hex(d) with d*G == that signature's issuer point), CheckWeakECPrivateKey / CheckECKeySmallDifference (the value attached to key i is the search result for key i through the per-curve partition). BatchDL and ExtendedBatchDL are proved sound over the logarithm view (every returned value is a discrete log of its own point, for every curve / list / multiplier list), Multiply is proved against the group law for every scalar (group view, bridge clauses assumed, see C11); BatchMultiplyG stays an assumed contract decided under C11's bounded tier.",
@@ -54,7 +54,7 @@ CLAIMS = {
           "Non-interference by loop cut: every per-artifact loop body of the individual checks is verified from an ARBITRARY state of all loop-carried variables (havoc at the cut) and writes only to that artifact's own test_info (call-site obligations `args[0] is key.test_info`), with closed-form verdicts proved functions of the artifact alone; joint checks: verdict i is tied to search result i through the order-preserving per-curve / per-issuer partition. The EC table shared across calls: PointTable's index space and BatchDL's `self._table_size >= table_size` obligation are discharged for every request size; a syntactic frame obligation per function rules out any other state outside the arguments (module/class-level mutation, writes to self outside __init__). Batch-size dependence of the search range (finding F9) and histories on real objects: bounded tier.",
           NOTE, "DESIGN.md 4/C17"),
   "C20": ("proof", TECH,
-          "0 <= RandomBits(n) < 2^n is discharged for all n >= 1 and all seeds for the 13 generator bodies (bytes/bit-length theory), TruncLcgRand restricted to n % 8 == 0 with the complementary obligation listed as known finding F6; registry, determinism, java.util.Random and truncated-LCG streams: bounded.",
+          "0 <= RandomBits(n) < 2^n is discharged for all n >= 1 and all seeds for the 13 generator bodies (bytes/bit-length theory), TruncLcgRand restricted to n % 8 == 0 with the complementary obligation listed as known finding F6; no fresh randomness on the non-zero-seed path; the modelled recurrences: TruncLcgRand state' == (a state + c) mod 2^(2s), output == upper s bits; java.util.Random scramble (seed ^ 0x5DEECE66D) mod 2^48, state' == (0x5DEECE66D state + 0xB) mod 2^48, output == state' >> 16. Registry, determinism across calls, byte order of the assembled streams: bounded.",
           NOTE, "DESIGN.md 4/C20"),
   "C18": ("proof", TECH,
           "Implicit-exception obligations (ZeroDivisionError, IndexError, KeyError, TypeError on None, ValueError of isqrt/shift/to_bytes, invert of non-unit) and 'no unexpected raise' are discharged for every function under a total contract (every check method except CheckIssuerKey) and, through the dependency closure, for every helper under contract that they reach (85 functions in all), under the property's well-formedness precondition (moduli >= 2^63). Left open and listed: BatchInverse's internal self-check (ArithmeticError) and Multiply's degenerate-tangent ValueError, which is proved impossible for on-curve points but does occur off the curve (secp256r1, (1, p), n = 2) - CheckWeakECPrivateKey searches unvalidated keys, so that path is decided by the bounded tier only.",
